@@ -23,6 +23,10 @@ pub struct Case {
     /// many keyspaces to rebuild (round 11: sizes and counts were a blind spot; a loader that works in batches or in parallel is
     /// crossed here)
     pub extra_keyspaces: usize,
+    /// the restart that follows this history hits a storage read error: the k-th listing read of the start (0 = the keyspace
+    /// list, 1.. = the metadata of the k-th keyspace) fails once. A node that refuses to start is started again (as an
+    /// operator would); a node that does start must have rebuilt everything (after the seeded change `C07r`)
+    pub load_read_fault: Option<u64>,
 }
 
 pub struct C07;
@@ -33,7 +37,8 @@ fn gen_case(src: &mut Src, g: &mut ReqGen, depth: usize) -> Case {
     let inside_next = src.chance(2, 5);
     let crash_after = if inside_next { src.below(n) } else { 1 + src.below(n) };
     let second = if depth == 0 && src.chance(1, 4) { Some(Box::new(gen_case(src, g, 1))) } else { None };
-    Case { reqs, crash_after, inside_next, second, extra_keyspaces: 0 }
+    let load_read_fault = if src.chance(1, 4) { Some(src.below64(4)) } else { None };
+    Case { reqs, crash_after, inside_next, second, extra_keyspaces: 0, load_read_fault }
 }
 
 impl Prop for C07 {
@@ -76,6 +81,7 @@ impl Prop for C07 {
                 "crash_after_completed_requests": case.crash_after,
                 "crash_inside_next_request": case.inside_next,
                 "further_keyspaces_with_one_entry_each": case.extra_keyspaces,
+                "listing_read_of_the_restart_that_fails(0=keyspace list)": case.load_read_fault,
                 "then": case.second.as_ref().map(|c| d(c)),
             })
         }
@@ -136,11 +142,35 @@ async fn run(case: &Case) -> Outcome {
         };
         let in_flight_purge = IN_FLIGHT_PURGE.with(|p| p.get());
         handle = handle.restart();
-        let new_group = e2::new_group(handle.clone(), 9).await;
-        new_group.load_states_from_storage().await.map_err(|e| crate::core::Fail {
-            signature: "load-failed".into(),
-            message: format!("load_states_from_storage failed: {e}"),
-        })?;
+        if let Some(k) = c.load_read_fault {
+            let mut g = handle.inner.lock();
+            g.read_fault_at = Some(g.read_calls + k);
+        }
+        let mut new_group = e2::new_group(handle.clone(), 9).await;
+        let first_try = new_group.load_states_from_storage().await;
+        let fault_hit = c.load_read_fault.is_some() && handle.inner.lock().read_fault_at.is_none();
+        handle.inner.lock().read_fault_at = None;
+        match first_try {
+            Ok(()) => {
+                if fault_hit {
+                    labels.push("started_although_a_read_failed");
+                }
+            },
+            Err(e) if fault_hit => {
+                // the node refused to start on the read error: start it again
+                let _ = e;
+                labels.push("start_refused_on_a_read_error_then_retried");
+                handle = handle.restart();
+                new_group = e2::new_group(handle.clone(), 9).await;
+                new_group.load_states_from_storage().await.map_err(|e| crate::core::Fail {
+                    signature: "load-failed".into(),
+                    message: format!("load_states_from_storage failed on the second start (no fault injected): {e}"),
+                })?;
+            },
+            Err(e) => {
+                return Err(crate::core::Fail { signature: "load-failed".into(), message: format!("load_states_from_storage failed: {e}") });
+            },
+        }
         let listed = handle.keyspace_names();
         for i in 0..case.extra_keyspaces {
             let name = format!("extra{i}");
